@@ -10,6 +10,7 @@ package verifharness
 import (
 	"context"
 	"fmt"
+	"runtime"
 	"sort"
 	"strconv"
 	"strings"
@@ -24,6 +25,7 @@ import (
 )
 
 const pxProxyName = 99
+const pxCancelMethod = "/x/cancel"
 
 // names <-> tokens: "n<k>" <-> k (0 < k < 99), "px" <-> 99, "x-n<k>" <-> 100+k
 func pxName(tok int64) string {
@@ -103,6 +105,9 @@ type PAct struct {
 	Next []int64 `json:"next,omitempty"`
 	HasN bool    `json:"hasn,omitempty"` // the return route is non-nil (possibly empty)
 	V    int64   `json:"v,omitempty"`
+	// deliver: the proxy context is cancelled while the forwarding loop is inside this envelope's forward
+	// (from the interceptor); if the envelope never gets there, at the end of the step
+	CancelOn bool `json:"cancelon,omitempty"`
 }
 
 type pxScenario struct {
@@ -195,6 +200,8 @@ type pxRig struct {
 	sc       pxScenario
 	p        *goat.Proxy
 	cancel   context.CancelFunc
+	ctx      context.Context
+	cancelW  bool // a CancelOn envelope was delivered
 	mu       sync.Mutex
 	recs     []*pxRec
 	newDials []*pxRec
@@ -288,6 +295,10 @@ func (r *pxRig) do(a PAct) string {
 				h.ProxyNext = append(h.ProxyNext, pxName(x))
 			}
 		}
+		if a.CancelOn {
+			h.Method = pxCancelMethod
+			r.cancelW = true
+		}
 		rpc := &Rpc{Id: 1000 + r.nDel, Header: h, Body: &goatorepo.Body{Data: payloadOf(a.V)}}
 		switch a.Bad {
 		case "nohdr":
@@ -301,6 +312,9 @@ func (r *pxRig) do(a PAct) string {
 			r.orig[a.V] = clone(rpc)
 		}
 		rec.ep.Deliver(rpc)
+		if a.CancelOn {
+			return fmt.Sprintf("ADeliver %d %s; ACancel", rec.idx, e.coq())
+		}
 		return fmt.Sprintf("ADeliver %d %s", rec.idx, e.coq())
 	case "failread":
 		rec := r.find(a.N, a.Gen)
@@ -394,7 +408,22 @@ func (r *pxRig) snapshot() pxObs {
 func (r *pxRig) start() {
 	ctx, cancel := context.WithCancel(context.Background())
 	r.cancel = cancel
+	r.ctx = ctx
 	r.orig = map[int64]*Rpc{}
+	icp := pxInterceptor(r.sc.Icp)
+	if icp != nil {
+		inner := icp
+		icp = func(h *goatorepo.RequestHeader) error {
+			if h.Method == pxCancelMethod {
+				// let the other goroutines get to their offers, then cancel from inside the forwarding loop
+				for i := 0; i < 40; i++ {
+					runtime.Gosched()
+				}
+				cancel()
+			}
+			return inner(h)
+		}
+	}
 	verifhook.ResetCounters()
 	r.lastDrop = 0
 	r.p = goat.NewProxy(ctx, pxName(pxProxyName),
@@ -410,7 +439,7 @@ func (r *pxRig) start() {
 			}
 			return r.conn(rec, res.deaf), nil
 		},
-		pxInterceptor(r.sc.Icp),
+		icp,
 		func(id string, reason error) {
 			who := int64(-1)
 			if pe, ok := reason.(*pxErr); ok {
@@ -503,6 +532,11 @@ func runPxScenario(t *testing.T, idx int, kind string, sc pxScenario, em *Emitte
 				continue
 			}
 			synctest.Wait()
+			if rig.cancelW && rig.ctx.Err() == nil {
+				// the envelope that was to trigger the cancellation never reached the interceptor
+				rig.cancel()
+				synctest.Wait()
+			}
 			o := rig.snapshot()
 			drops += o.Drops
 			obsList = append(obsList, o)
